@@ -151,6 +151,7 @@ type c13Case struct {
 	rounds     []int // dial attempts per redial round of the current step
 	log        []byte
 	disc       int
+	prewrite   map[int32]int // pre-write hook firings per message seq
 	cli        erpc.Peer
 	sess       erpc.Session
 	entered    chan struct{}
@@ -235,6 +236,20 @@ func (p *c13Plug) PostDial(sess erpc.PreSession, isRedial bool) *erpc.Status {
 	}
 	return nil
 }
+// PreWriteCall / PreWritePush count their firings per message (sequence number): a write that is
+// retried after a redial must not run the pre-write hooks of the same message again (each hook fires
+// at most once per stage and message, property C09).
+func (p *c13Plug) PreWriteCall(ctx erpc.WriteCtx) *erpc.Status {
+	p.c.mu.Lock()
+	if p.c.prewrite == nil {
+		p.c.prewrite = map[int32]int{}
+	}
+	p.c.prewrite[ctx.Output().Seq()]++
+	p.c.mu.Unlock()
+	return nil
+}
+func (p *c13Plug) PreWritePush(ctx erpc.WriteCtx) *erpc.Status { return p.PreWriteCall(ctx) }
+
 func (p *c13Plug) PostDisconnect(erpc.BaseSession) *erpc.Status {
 	p.c.mu.Lock()
 	p.c.disc++
@@ -1004,6 +1019,14 @@ func c13Oracles(c *c13Case, line, st, res, o string, before int32, out *hx.Out) 
 	}
 	// bounded rounds
 	c.mu.Lock()
+	for seq, n := range c.prewrite {
+		if n > 1 {
+			c.prewrite[seq] = 1 // report once
+			c.mu.Unlock()
+			out.Violate(line, "prewrite-hook-once", fmt.Sprintf("the pre-write hook fired %d times for the message with seq %d (step %s): %s", n, seq, st, o), "c09:prewrite-hook-rerun-after-redial")
+			c.mu.Lock()
+		}
+	}
 	rounds := append([]int(nil), c.rounds...)
 	logStep := string(c.log)
 	c.mu.Unlock()
